@@ -8,6 +8,22 @@ TECH = ("symbolic execution of the real Go functions from go/ssa (own executor, 
         "obligations decided by z3; counterexamples replayed natively with go test -overlay")
 
 CHECKS = {
+    "C01": dict(
+        category="translation_validation",
+        text=("Per architecture and opcode (the family in the evidence file), the processor/ROM/arch Verilog written by the real generators "
+              "(run natively at every check) is translated by /verif/vlog into a transition relation, the real procbuilder.VM.Step with its "
+              "Decode_opcode and Opcode.Simulate is executed symbolically by /verif/symgo, and z3 decides that ONE retired instruction from "
+              "an ARBITRARY state (every ROM word, pc, register, input, output register, handshake flag symbolic; the instruction at pc an "
+              "instance of the opcode) leaves the same pc, every register and every output port on both sides. By induction over retired "
+              "instructions this covers programs of any length over the checked opcodes for the checked architectures; it says nothing "
+              "about architectures outside the family, modes vn/hy, RAM/handshaked/floating-point/shared-object/threaded/pipelined opcodes, "
+              "multi-cycle opcodes, or hardware optimisations derived from a program (not yet checked)."),
+        note=("Trusted: z3, go/ssa, /verif/symgo, /verif/vlog (two-state semantics), cmd/bmnative. Assumes pc+1 exists in the ROM and that "
+              "the simulator does not panic (out-of-range port index, division by zero). One genuine defect repaired (fix: 31ff0b2). "
+              "ja and addi+i2r are kept out of the main opcode sets because the generated files do not elaborate (C18-class, see DESIGN)."),
+        design="DESIGN.md section 3, C01; Appendix A; Changes after round 0",
+        engine="symgo+vlog",
+        technique="translation validation by SMT: generated Verilog (own Verilog->transition-relation translator) vs. go/ssa symbolic execution of the ISA simulator, one instruction from an arbitrary state, decided by z3"),
     "C03": dict(
         category="proof",
         text=("Bounded, per architecture and opcode, decided by SMT: the real Arch.Assembler_process_line, each Opcode.Assembler/"
@@ -138,7 +154,7 @@ def main():
         ],
         "checks": checks,
         "not_applicable": na,
-        "notes": "fix: commits in /repo: bc191a3, 7728b54 (C03), f0fe4e6 (C08). Known findings and fixed entries: /verif/known_findings.json.",
+        "notes": "fix: commits in /repo: bc191a3, 7728b54 (C03), f0fe4e6 (C08), 31ff0b2 (C01). Known findings and fixed entries: /verif/known_findings.json.",
     }
     with open(os.path.join(ROOT, "MANIFEST.json"), "w") as f:
         json.dump(m, f, indent=1)
